@@ -57,6 +57,11 @@ impl Error {
         }
     }
 
+    /// STOP and CTRL-C report through the error path but are not errors.
+    pub fn is_break(&self) -> bool {
+        self.code == ErrorCode::Break as u16
+    }
+
     pub fn is_direct(&self) -> bool {
         self.line_number.is_none()
     }
